@@ -35,6 +35,31 @@ CHECKS = {
     technique="scheduler-driven enumeration of draw schedules with routing audit (global generator untouched, no private generator), replay of each schedule on the same object, exhaustive answer sequences for random parameters, real-seed block",
     text="Every explored schedule of serial solve_stochast goes only through numpy's global draw functions and a repeated call with the same answers on the same model returns identical output (two paths per call); random-parameter runs (frozen / (sampler,args) / (sampler,kwargs), 1-2 random parameters, 1-3 iterations, solve_determ and simulate_param): mean equals the mean of the returned runs exactly and each run is the solution for its drawn parameters; real seeds: same seed twice identical, different seeds pairwise different.",
     note="numpy generators are deterministic functions of the seed; 'different seeds differ' enumerated over a block of 12 (quick) / 40 (thorough) seeds."),
+ "C01": dict(
+    category="exploration", design_ref="DESIGN.md §5 C01, §4.2",
+    technique="exhaustive enumeration of model definitions within a bounded number of named-choice edits of seed models (iterative deviation bounding over a generator grammar) plus a complete small-scope block; each definition compared with sympy reference semantics",
+    text="For every enumerated definition (events of 1-3 T/B/D transitions, numeric and symbolic magnitudes, 8 rate templates incl. time-periodic, ODE terms, derived parameters, 7 declaration styles) the symbolic ode / state-change matrix / rate vector / explicit terms equal the reference, ode == V*a + explicit terms, the reactant matrix is the support pattern, and the numeric evaluators equal mpmath evaluation of the reference at 4 points on one model instance; Cython back-end on the seeds.",
+    note="Reference = sympy on the definition alone. quick: all 1-edit neighbours of 6 seeds + a VERIF_SEED-selected 1/6 slice of the 2-edit neighbourhoods and 1/7 of the block (not exhaustive, flagged); thorough: complete 2-3 edit neighbourhoods and block."),
+ "C03": dict(
+    category="exploration", design_ref="DESIGN.md §5 C03",
+    technique="same generator exploration as C01 with sympy.diff of the reference right-hand side as oracle",
+    text="jacobian, grad, diff_jacobian, grad_jacobian, transitionJacobian, transitionMean, transitionVar of every enumerated definition equal the derivatives of the reference right-hand side / rate vector, symbolically (get_*_eqn) and numerically at 4 points, with rows and columns in declared order (asymmetric models, so transposed or permuted results differ).",
+    note="As C01."),
+ "C08": dict(
+    category="model_checking", design_ref="DESIGN.md §5 C08, §4.3",
+    technique="explicit enumeration of operation histories (mutators x evaluations) replayed on fresh real objects; differential oracle against a fresh object that received only the mutators",
+    text="All histories of length 3 over 13 mutators, 11 evaluators and 'evaluate another live model' from a fresh model (and [mutator, any, evaluation] from an all-compiled model), plus every two-phase history [mutator, evaluation, mutator, evaluation]; thorough adds all length-4 histories with five evaluators as operations. Every evaluation inside a history must equal the same evaluator on a fresh object with the same mutators and no interleaved evaluation.",
+    note="No abstraction of the model state is used for pruning. In states where a declared parameter has no value both sides must fail alike."),
+ "C09": dict(
+    category="model_checking", design_ref="DESIGN.md §5 C09",
+    technique="enumeration of all sequences of parameter assignments over the input-form alphabet on one live object, against a dict reference",
+    text="All sequences of <=2 (quick; +length 3 over 12 representative forms) / 3 (thorough) assignments over 41 forms (list, tuple, array, column array, pairs in all orders, dict by str / model symbol / plain Symbol for all subsets, six rejected forms) on a model whose evaluators reveal each parameter separately (ode, grad and a parameter-only state-change matrix, parameters declared in non-alphabetical order).",
+    note="Partial update on a model that never had values leaves unmentioned parameters unspecified (not judged)."),
+ "C12": dict(
+    category="model_checking", design_ref="DESIGN.md §5 C12",
+    technique="enumeration of route assignments x orderings x declaration styles x incremental subsets for fixed process sets; differential oracle against the all-Event variant, plus a grown-model leg with interleaved evaluations",
+    text="7 process sets; every assignment of an API route to each process, every ordering, every subset added with add_*, every state/parameter declaration style, the explicit-ODE form, and models grown one process at a time with evaluations in between: symbolic ODE identical, numeric ode/jacobian/grad/eventRateVector/vMat identical (modulo the known event permutation).",
+    note="Legacy transition=/birth_death= routes only with magnitude 1 (they cannot express another)."),
 }
 NOT_YET = "check not built yet in this round (planned in DESIGN.md §5)"
 
